@@ -309,6 +309,20 @@ def _enclosing_reference(res, msg):
     return False
 
 
+def _aliased_forward_ref(res, outer, missing):
+    """a field type mentions <outer>.<missing>, <outer> is a generated class without an inner class rendered <missing>,
+    and some module imports a class under the alias <missing>"""
+    for mod in res.get("modules", []):
+        for p in mod.get("classes", []):
+            if p["class_name"] == outer and missing not in [i["class_name"] for i in p.get("inner", [])]:
+                used = any(f"{outer}.{missing}" in (a.get("field_type") or "") for _, pp in _walk_plans([p]) for a in pp["attrs"])
+                aliased = any(it.get("alias") and it["import_class"].endswith(" as " + missing)
+                              for m2 in res.get("modules", []) for row in m2.get("imports", []) for it in row["items"])
+                if used and aliased:
+                    return True
+    return False
+
+
 def _defined_elsewhere(res, module, name):
     return any(m["module"] != module and any(p["class_name"] == name for p in m.get("classes", [])) for m in res.get("modules", []))
 
@@ -389,7 +403,10 @@ def classify_pipeline(job, res, coq):
                 created = [i["name"] for i in p["inner"] if i["class_name"] in dup_names and i.get("local_type")
                            and [a["name"] for a in i["attrs"]] == ["value"] and i["attrs"][0].get("tag") == "Extension"]
                 if created:
-                    out.append(("dup-inner-class-created", f"{m['module']}.{q}: inner class(es) {created} created by a later handler are rendered "
+                    # decided in resolve_pipeline: next_available_name guarantees a fresh SLUG, so only a slug collision
+                    # (Coq verdict 1) is attributed to the creating handler; a collision that appears only after the safe
+                    # prefix / reserved suffix (verdict 2) is the open F4/F16 family
+                    out.append(("?created", f"{m['module']}::{q}|{m['module']}.{q}: inner class(es) {created} created by a later handler are rendered "
                                 f"{sorted(dup_names)} like an existing inner class: {[i['name'] for i in p['inner']]} -> {inner}"))
             if set(inner) & set(fields):
                 out.append(("field-vs-inner-class", f"{m['module']}.{q}: inner classes {inner} / fields {fields}"))
@@ -415,7 +432,12 @@ def classify_pipeline(job, res, coq):
                     mod_fields = {a.get("field_name") for mm in res.get("modules", [])
                                   for _, pp in _walk_plans(mm.get("classes", [])) for a in pp.get("attrs", [])}
                     shadow = _shadowing_classes(res)
-                    if err["type"] == "XmlContextError" and "Compound field contains ambiguous types" in (err["message"] or ""):
+                    noattr = re.match(r"type object '(\w+)' has no attribute '(\w+)'", err["message"] or "")
+                    if err["type"] == "AttributeError" and noattr and _aliased_forward_ref(res, noattr.group(1), noattr.group(2)):
+                        out.append(("forward-ref-aliased", f"{c['module']}.{c['qualname']}: an annotation names {noattr.group(1)}.{noattr.group(2)}, but the "
+                                    f"inner class of {noattr.group(1)} is rendered under another name: the import alias of a same-qname class was applied to "
+                                    "the forward reference"))
+                    elif err["type"] == "XmlContextError" and "Compound field contains ambiguous types" in (err["message"] or ""):
                         out.append(("compound-field-ambiguous-types", f"{c['module']}.{c['qualname']}: {err['message']}"))
                     elif shadow:
                         out.append(("class-name-shadows-import", f"{c['module']}.{c['qualname']}: generated class(es) {shadow} hide the name the "
@@ -494,6 +516,11 @@ def resolve_pipeline(job, res, prelim, coq):
                 out.append(("generated-name-not-identifier", f"name(s) {bad} are not identifiers ({what})"))
             else:
                 out.append(("generated-syntax-error", what))
+        elif cls == "?created":
+            key, text_ = what.split("|", 1)
+            code = coq.ans.get(("dupclasses", (res["id"], key)), (0, None))[0]
+            if code == 1:
+                out.append(("dup-inner-class-created", text_))
         elif cls == "?enum-dup":
             got = [(k, v) for k, v in coq.ans.items() if k[0] == "dupfields" and k[1][0] == res["id"] and v[1][1]]
             if any(code == 2 for _, (code, _p) in got):
@@ -568,6 +595,8 @@ def pipeline_oracle(ck: Check):
         ("xsd", {"s.xsd": W_XSD_F14}, {"generic_collections": True}),
         ("xml", {"await0.xml": W_XML_F12}, {"wrapper_fields": True, "frozen": True, "slots": True}),
         ("xsd", {"a.xsd": W_XSD_R4M1}, {"compound_fields": True}), ("xsd", {"a.xsd": W_XSD_R4M1}, {"compound_fields": True, "wrapper_fields": True}),
+        # a created inner class whose name collides only after the safe prefix (_1a -> Type1A next to type_1a): open F4/F16 family
+        ("xsd", {"a.xsd": W_XSD_R4M1.replace("x-y", "type_1a").replace("x_y", "_1a")}, {"compound_fields": True}),
         ("xsd", {"a.xsd": W_XSD_R4M2}, {}), ("xsd", {"a.xsd": W_XSD_R4M2}, {"structure_style": "clusters"}),
         ("xml", {"sample.xml": W_XML_NS}, {}), ("xml", {"sample.xml": W_XML_NS}, {"structure_style": "namespaces"}),
         ("xml", {"sample.xml": W_XML_NS}, {"structure_style": "namespace-clusters"}),
